@@ -3,10 +3,12 @@
 package quic
 
 import (
+	"context"
 	"fmt"
 	"sync"
 	"testing"
 	"testing/synctest"
+	"time"
 
 	"golang.org/x/net/internal/verifrt"
 )
@@ -93,6 +95,170 @@ func TestVerif_C19(t *testing.T) {
 			"out_of_order": res.OutOfOrder, "virtual_ms": res.VirtualMs, "dropped": nn.Dropped, "dup": nn.Duped,
 			"first_stream": fmt.Sprintf("%+v", rc.Streams[0])})
 	})
+	// (b) one sending stream against a scripted receiver (the repository's testConn, which
+	// owns the peer's keys): the script writes, flushes and closes at PRNG points, drops a
+	// PRNG subset of the packets the connection sends, acknowledges exactly the packets it
+	// kept (after PRNG delays), and lets virtual time pass up to the loss timer. Then the
+	// network turns perfect: within a bounded number of timer rounds the receiver must hold
+	// every byte and the FIN. Deterministic (no goroutine races), so a case replays exactly;
+	// it reaches the sender-side corners the random network rarely hits (a FIN in a packet of
+	// its own, probes that truncate a frame, partial acknowledgements).
+	ns := r.N(1500, 60000)
+	r.CasesParallel("scripted-receiver", ns, 0, func(c *verifrt.Case) {
+		rng := c.Rng
+		side := []connSide{clientSide, serverSide}[rng.IntN(2)]
+		styp := []streamType{bidiStream, uniStream}[rng.IntN(2)]
+		total := []int{0, 1, 100, 1100, 1174, 1175, 1300, 2400, 3000, 5000, 12000}[rng.IntN(11)]
+		if rng.IntN(3) == 0 {
+			total = rng.IntN(20000)
+		}
+		dropPct := []int{0, 20, 40, 60}[rng.IntN(4)]
+		c.Describe(map[string]any{"side": fmt.Sprint(side), "type": fmt.Sprint(styp), "total": total, "drop_pct": dropPct})
+		var log []string
+		note := func(f string, a ...any) {
+			if len(log) < 200 {
+				log = append(log, fmt.Sprintf(f, a...))
+			}
+		}
+		synctest.Test(t, func(t *testing.T) {
+			tc, s := newTestConnAndLocalStream(t, side, styp, permissiveTransportParameters)
+			tc.conn.keysAppData.updateAfter = maxPacketNumber // key updates need the peer's cooperation: C34 covers them
+			got := make([]byte, total)
+			var have vlpIvals
+			fin, finAt := false, int64(-1)
+			var kept rangeset[packetNumber]
+			var unacked []packetNumber
+			bad := false
+			deliver := func(drop bool) int {
+				n := 0
+				for _, p := range vlpReadPackets(tc) {
+					if p.ptype != packetType1RTT {
+						continue
+					}
+					n++
+					if drop && rng.IntN(100) < dropPct {
+						note("drop pkt %d %v", p.num, p.frames)
+						r.Event("scripted_packets_dropped", 1)
+						continue
+					}
+					kept.add(p.num, p.num+1)
+					unacked = append(unacked, p.num)
+					for _, f := range p.frames {
+						sf, ok := f.(debugFrameStream)
+						if !ok || sf.id != s.id {
+							continue
+						}
+						end := sf.off + int64(len(sf.data))
+						if end > int64(total) {
+							c.Violation("scripted-data-beyond-what-was-written", "STREAM [%d,%d) fin=%v in packet %d, only %d bytes were written", sf.off, end, sf.fin, p.num, total)
+							bad = true
+							continue
+						}
+						for i, b := range sf.data {
+							if b != vlpPattern(77, sf.off+int64(i)) {
+								c.Violation("scripted-corrupt-byte", "STREAM frame in packet %d: byte at offset %d is %#x, written %#x", p.num, sf.off+int64(i), b, vlpPattern(77, sf.off+int64(i)))
+								bad = true
+								break
+							}
+						}
+						copy(got[sf.off:], sf.data)
+						have.add(sf.off, end)
+						if sf.fin {
+							if end != int64(total) {
+								c.Violation("scripted-fin-at-wrong-offset", "FIN at %d in packet %d, %d bytes were written", end, p.num, total)
+								bad = true
+							}
+							fin, finAt = true, end
+						}
+						note("keep pkt %d STREAM [%d,%d) fin=%v", p.num, sf.off, end, sf.fin)
+					}
+				}
+				return n
+			}
+			ack := func() {
+				if len(unacked) == 0 {
+					return
+				}
+				unacked = unacked[:0]
+				tc.writeFrames(packetType1RTT, debugFrameAck{ranges: append([]i64range[packetNumber](nil), kept...)})
+				note("ack %v", kept)
+			}
+			sleepToTimer := func(max time.Duration) {
+				var when time.Time
+				tc.conn.runOnLoop(context.Background(), func(now time.Time, conn *Conn) { when = conn.loss.timer })
+				d := max
+				if !when.IsZero() {
+					if u := time.Until(when); u > 0 && u < max {
+						d = u + time.Millisecond
+					}
+				}
+				time.Sleep(d)
+			}
+			written, closed := 0, false
+			for step := 0; step < 40 && !(closed && written == total && rng.IntN(4) == 0); step++ {
+				switch op := rng.IntN(10); {
+				case op < 3 && written < total:
+					n := min(total-written, 1+rng.IntN([]int{50, 1200, 1300, 4000}[rng.IntN(4)]))
+					b := make([]byte, n)
+					vlpFill(b, 77, int64(written))
+					if m, err := s.Write(b); err != nil || m != n {
+						c.Violation("scripted-write-error", "Write(%d bytes at %d) = %d, %v", n, written, m, err)
+						return
+					}
+					written += n
+					note("write %d (total %d)", n, written)
+					if rng.IntN(2) == 0 {
+						s.Flush()
+					}
+				case op < 4 && written == total && !closed:
+					s.Flush()
+					if rng.IntN(2) == 0 {
+						deliver(true) // the data leaves before the close: the FIN gets a frame of its own
+					}
+					s.CloseWrite()
+					closed = true
+					note("closewrite")
+				case op < 6:
+					deliver(true)
+				case op < 8:
+					ack()
+				default:
+					sleepToTimer(time.Duration(1+rng.IntN(2000)) * time.Millisecond)
+				}
+			}
+			if written < total {
+				b := make([]byte, total-written)
+				vlpFill(b, 77, int64(written))
+				if m, err := s.Write(b); err != nil || m != len(b) {
+					c.Violation("scripted-write-error", "final Write(%d bytes at %d) = %d, %v", len(b), written, m, err)
+					return
+				}
+				written = total
+			}
+			if !closed {
+				s.CloseWrite()
+			}
+			// perfect network from here on
+			rounds := 0
+			for ; rounds < 80 && !(fin && have.covers(0, int64(total)) || bad); rounds++ {
+				deliver(false)
+				ack()
+				sleepToTimer(30 * time.Second)
+			}
+			if !bad && !(fin && (total == 0 || have.covers(0, int64(total)))) {
+				c.Violation("scripted-receiver-never-completes", "after %d loss-timer rounds on a perfect network the receiver has ranges %v of [0,%d) and fin=%v(at %d); sender stream: %s; script: %v", rounds, have.r, total, fin, finAt, vlpDumpStream(s), log)
+			}
+			r.Event("scripted_receiver_runs", 1)
+			r.Event("scripted_clean_rounds_needed", int64(rounds))
+			if rounds > 1 {
+				r.Event("scripted_runs_needing_retransmission_after_faults", 1)
+			}
+		})
+		r.Eval(dropPct > 0 && total > 0, "scripted", side, styp, total, dropPct, len(log))
+	})
+	r.Require("scripted_receiver_runs", int64(ns*9/10))
+	r.Require("scripted_packets_dropped", 500)
+	r.Require("scripted_runs_needing_retransmission_after_faults", 100)
 	r.Require("runs_completed", int64(n*8/10))
 	r.Require("stream_retransmissions", 10)
 	r.Require("out_of_order_arrivals", 10)
